@@ -9,4 +9,4 @@ for S in "$@"; do
       echo "$S $D $P"
     done
   done
-done | xargs -P 4 -L 1 bash -c 'R=$(VERIF_SEED=$0 SHOWDIFF=0 tools/mutate.sh $1/patch.diff -- $2 2>&1 | grep -E "^(DETECTED|MISSED|INCONCLUSIVE)" | head -1); echo "seed=$0 $1 $R"'
+done | xargs -P 4 -L 1 bash -c 'R=$(VERIF_SEED=$0 SHOWDIFF=0 tools/mutate.sh /verif/$1/patch.diff -- $2 2>&1 | grep -E "^(DETECTED|MISSED|INCONCLUSIVE)" | head -1); echo "seed=$0 $1 $R"'
